@@ -78,7 +78,7 @@ fn main() {
                     tier_of(&args),
                     seed_of(&args),
                     workers,
-                    !args.flags.iter().any(|f| f == "no-evidence"),
+                    !args.flags.iter().any(|f| f == "no-evidence") && std::env::var_os("VERIF_NO_EVIDENCE").is_none(),
                     args.opts.get("runs").and_then(|s| s.parse().ok()),
                     args.opts.get("max-seconds").and_then(|s| s.parse().ok()),
                 );
@@ -101,7 +101,7 @@ fn main() {
                 runs: args.opts.get("runs").and_then(|s| s.parse().ok()),
                 workers,
                 max_seconds: args.opts.get("max-seconds").and_then(|s| s.parse().ok()),
-                write_evidence: !args.flags.iter().any(|f| f == "no-evidence"),
+                write_evidence: !args.flags.iter().any(|f| f == "no-evidence") && std::env::var_os("VERIF_NO_EVIDENCE").is_none(),
             };
             runner::batch_main(engine.as_ref(), &b)
         }
